@@ -172,7 +172,7 @@ func (h *hist) opMint() {
 	scopes := pick(h.r, scopeSets...)
 	extra := ""
 	if h.r.IntN(3) == 0 {
-		extra = pick(h.r, basicIDs...)
+		extra = pick(h.r, "web", "web2", "webj", "jwt")
 		if extra == client {
 			extra = ""
 		}
@@ -258,7 +258,9 @@ func firstReason(t *mTok) string {
 	return "live"
 }
 
-var introspectCallers = []string{"owner", "owner", "owner", "audmember", "audmember", "foreign", "foreign", "foreign-jwt", "foreign-post", "wrong-secret", "no-secret"}
+var introspectCallers = []string{"owner", "owner", "owner", "audmember", "audmember", "foreign", "foreign", "foreign-jwt", "foreign-post", "wrong-secret", "no-secret",
+	// mixed identity: the credential authenticates one client, a form client_id names another one
+	"mixed-assertion", "mixed-assertion", "mixed-basic", "mixed-basic-owner"}
 
 func (h *hist) opIntrospect(t *mTok, callerKind string) {
 	if callerKind == "" {
@@ -266,7 +268,8 @@ func (h *hist) opIntrospect(t *mTok, callerKind string) {
 	}
 	var auth opdrv.ClientAuth
 	authn := "yes" // yes | no | maybe
-	caller := t.Client
+	caller := t.Client // the client the credential authenticates: the oracle's caller
+	formClientID := "" // mixed-identity callers: a form client_id naming somebody else
 	switch callerKind {
 	case "audmember":
 		if len(t.Aud) < 2 {
@@ -286,14 +289,42 @@ func (h *hist) opIntrospect(t *mTok, callerKind string) {
 		caller = "jwt"
 	case "foreign-post":
 		caller = "post"
+	case "mixed-assertion":
+		// authenticated by private_key_jwt as "jwt"; the form names the owner (or the second audience member)
+		caller = "jwt"
+		formClientID = t.Client
+		if len(t.Aud) > 1 && t.Aud[1] != "jwt" && h.r.IntN(2) == 0 {
+			formClientID = t.Aud[1]
+		}
+	case "mixed-basic", "mixed-basic-owner":
+		var cands []string
+		for _, id := range basicIDs {
+			if !slices.Contains(t.Aud, id) {
+				cands = append(cands, id)
+			}
+		}
+		foreign := pick(h.r, cands...)
+		if callerKind == "mixed-basic-owner" && h.cl[t.Client].Auth == oidc.AuthMethodNone {
+			callerKind = "mixed-basic"
+		}
+		if callerKind == "mixed-basic" {
+			caller, formClientID = foreign, t.Client // Basic of a foreign client, the form names the owner
+		} else {
+			caller, formClientID = t.Client, foreign // Basic of the owner, the form names a foreign client
+		}
 	}
 	switch callerKind {
-	case "owner", "audmember", "foreign":
-		if h.cl[caller].Auth == oidc.AuthMethodNone {
+	case "owner", "audmember", "foreign", "mixed-basic", "mixed-basic-owner":
+		switch h.cl[caller].Auth {
+		case oidc.AuthMethodNone:
 			auth, authn, callerKind = opdrv.IDOnly(caller), "no", "public-owner"
-		} else {
+		case oidc.AuthMethodPrivateKeyJWT:
+			auth = h.w.AuthFor(h.cl[caller])
+		default:
 			auth = h.basic(caller)
 		}
+	case "mixed-assertion":
+		auth = h.w.AuthFor(h.cl["jwt"])
 	case "foreign-jwt":
 		auth = h.w.AuthFor(h.cl["jwt"])
 	case "foreign-post":
@@ -304,8 +335,12 @@ func (h *hist) opIntrospect(t *mTok, callerKind string) {
 		auth, authn = opdrv.IDOnly(caller), "no"
 	}
 	inAud := slices.Contains(t.Aud, caller)
-	resp := h.introspect(t.Str, auth)
-	h.note("introspect", fmt.Sprintf("caller=%s(%s) %s", caller, callerKind, t.ref()), resp.Brief())
+	resp := h.introspectAs(t.Str, auth, formClientID)
+	who := caller
+	if formClientID != "" {
+		who = fmt.Sprintf("%s+form client_id=%s", caller, formClientID)
+	}
+	h.note("introspect", fmt.Sprintf("caller=%s(%s) %s", who, callerKind, t.ref()), resp.Brief())
 	h.run.Eval()
 	if h.bad(resp, "introspection by "+callerKind) {
 		return
@@ -344,6 +379,9 @@ func (h *hist) opIntrospect(t *mTok, callerKind string) {
 		}
 		h.run.Count("introspect", "active:"+callerKind+":"+t.Kind)
 		h.run.Observed("introspect-active:" + callerKind + ":" + h.rn)
+		if caller == "jwt" {
+			h.run.Observed("introspect-active:assertion-audmember:" + h.rn)
+		}
 		return
 	}
 	if mustActive {
@@ -365,6 +403,9 @@ func (h *hist) opIntrospect(t *mTok, callerKind string) {
 			return
 		}
 		h.run.Count("introspect", "inactive:"+reason)
+		if strings.HasPrefix(callerKind, "mixed-") && reason == "not-in-audience" {
+			h.run.Observed("introspect-" + callerKind + "-inactive:" + h.rn)
+		}
 		if reason == "not-in-audience" {
 			h.run.Observed("introspect-foreign-inactive:" + h.rn)
 		} else {
@@ -598,18 +639,25 @@ func (h *hist) opEndSession() {
 		postLogout = pl[0]
 	}
 	state := pick(h.r, "", "xyz")
-	resp := h.endSession(t.Str, clientID, postLogout, state)
-	h.note("end_session", fmt.Sprintf("id_token_hint=%s client_id=%q post_logout=%q state=%q", t.ref(), clientID, postLogout, state), resp.Brief())
+	hint, hintKind := t.Str, "valid"
+	if h.r.IntN(3) == 0 {
+		// correctly signed (provider key), right iss / sub / azp, but expired an hour ago: still accepted for logout by design
+		sig := h.w.Store.SigningKeyOf()
+		hint, hintKind = resign(t.Str, sig, sig.Alg, sig.Kid, past), "expired"
+	}
+	resp := h.endSession(hint, clientID, postLogout, state)
+	h.note("end_session", fmt.Sprintf("id_token_hint=%s (%s: %s) client_id=%q post_logout=%q state=%q", t.ref(), hintKind, short(hint), clientID, postLogout, state), resp.Brief())
 	h.run.Eval()
 	if h.bad(resp, "end_session") {
 		return
 	}
-	h.run.Distinct(fmt.Sprintf("%s|end_session|%s|cid=%v|plr=%v|extras=%v", h.rn, t.Via, clientID != "", postLogout != "", h.extras))
+	h.run.Distinct(fmt.Sprintf("%s|end_session|%s|%s|cid=%v|plr=%v|extras=%v", h.rn, t.Via, hintKind, clientID != "", postLogout != "", h.extras))
 	if resp.Status != 302 {
 		// whether a genuine hint may be refused is C18's business; the session then simply is not terminated
-		h.run.Count("end_session", fmt.Sprintf("refused_%d", resp.Status))
+		h.run.Count("end_session", fmt.Sprintf("refused_%d:%s", resp.Status, hintKind))
 		return
 	}
+	h.run.Observed("end_session-" + hintKind + "-hint:" + h.rn)
 	h.hot = nil
 	n := 0
 	for _, o := range h.pool {
@@ -623,7 +671,7 @@ func (h *hist) opEndSession() {
 			}
 		}
 	}
-	h.run.Count("end_session", "terminated")
+	h.run.Count("end_session", "terminated:"+hintKind)
 	h.run.Observed("end_session:" + h.rn)
 	if h.extras {
 		h.run.Observed("end_session-from-request:" + h.rn)
